@@ -136,6 +136,25 @@ Definition iteration (F : facts) (trigs : list tdef) (s : state) : state :=
   {| pending := filter (fun v => negb (cleared trigs snap v)) (pending s1);
      claims := claims s1; launched := launched s1; now := now s1 |}.
 
+(* the same iteration when get_valid_conditions may return only a prefix of the pending valid conditions
+   (`complete` = the generated fact of the store, `limit` = the size of the prefix otherwise): triggers are evaluated on
+   what was read, and only valid conditions that were read can be cleared *)
+Definition visible (complete : bool) (limit : nat) (p : list vc) : list vc :=
+  if complete then p else firstn limit p.
+
+Definition iteration_lim (F : facts) (complete : bool) (limit : nat) (trigs : list tdef) (s : state) : state :=
+  let snap := visible complete limit (pending s) in
+  let s1 := fold_left (run_trigger F snap) trigs s in
+  {| pending := filter (fun v => negb (inb v snap && cleared trigs snap v)) (pending s1);
+     claims := claims s1; launched := launched s1; now := now s1 |}.
+
+(* which conditions sourced from the reporting task an occurrence report is evaluated against
+   (get_conditions_sourced_from_task): its own kind; without the exact context-type filter a result (2) or exception
+   (3) report also reaches the status conditions (1), whose context class theirs derive from *)
+Definition reaches (exact : bool) (c : cid) (o : occ) : bool :=
+  Nat.eqb (kind_of c) (o_kind o)
+  || (negb exact && Nat.eqb (kind_of c) 1 && (Nat.eqb (o_kind o) 2 || Nat.eqb (o_kind o) 3)).
+
 (* record_valid_condition: keyed store; re-recording keeps the position in the in-memory dict,
    moves the row to the end under SQLite's INSERT OR REPLACE *)
 Definition record_vc (to_end : bool) (v : vc) (s : state) : state :=
